@@ -148,6 +148,24 @@ fn describe(a: &Ast, cfg: u32) -> String {
     }
 }
 
+/// a descriptor that must never show up once the real marker has been registered over it
+fn install_decoy(i: usize) {
+    let mut m = DescriptorManager::new();
+    let (kind, name) = REGS[i];
+    let n = name.to_string();
+    match kind {
+        "unary" => m.set_unary_descriptor(n, Arc::new(|_, _| "DECOY".into())),
+        "binary" => m.set_binary_descriptor(n, Arc::new(|_, _, _| "DECOY".into())),
+        "postfix" => m.set_postfix_descriptor(n, Arc::new(|_, _| "DECOY".into())),
+        "ternary" => m.set_ternary_descriptor(Arc::new(|_, _, _| "DECOY".into())),
+        "function" => m.set_function_descriptor(n, Arc::new(|_, _| "DECOY".into())),
+        "reference" => m.set_reference_descriptor(n, Arc::new(|_| "DECOY".into())),
+        "list" => m.set_list_descriptor(Arc::new(|_| "DECOY".into())),
+        "map" => m.set_map_descriptor(Arc::new(|_| "DECOY".into())),
+        _ => m.set_chain_descriptor(Arc::new(|_| "DECOY".into())),
+    }
+}
+
 fn ops() -> OpSet {
     let mut o = OpSet::builtin();
     o.prefix.insert("++".into());
@@ -308,6 +326,7 @@ impl Prop for C18 {
         Plan {
             stages: vec![
                 Stage { name: "subsets".into(), len: n, chunk: (n / 32).max(16), timeout: Duration::from_secs(1200), what: "registration subsets reached through verif_clear() + the public setters".into() },
+                Stage { name: "reregister".into(), len: REGS.len() as u64, chunk: 1, timeout: Duration::from_secs(120), what: "each (kind, name) registered twice with different descriptors, no clear in between: the later one must be used (fresh process each)".into() },
                 Stage { name: "fresh".into(), len: (REGS.len() + 2) as u64, chunk: 1, timeout: Duration::from_secs(120), what: "the empty, every singleton and the full configuration, each in a fresh process without the clear hook".into() },
             ],
             rule: format!(
@@ -327,6 +346,21 @@ impl Prop for C18 {
     fn run(&self, tier: Tier, stage: usize, a: u64, b: u64, out: &mut WorkerOut) {
         expression_engine::register_prefix_op("++", Arc::new(|v| Ok(v)));
         let progs = programs(tier);
+        if stage == 1 {
+            for i in a..b {
+                out.idx = Some(i);
+                // first a decoy descriptor for this (kind, name), then the marker set
+                install_decoy(i as usize);
+                let cfg = 1u32 << i;
+                check_config(cfg, &progs, "reregister", false, out);
+                // and the other way round: everything registered, then one decoy replaced again
+                check_config((1u32 << REGS.len()) - 1, &progs, "reregister", false, out);
+                out.nontrivial.insert(cfg as u64 + (1 << 41));
+                out.count("states", 2);
+                out.count("transitions", 2 * progs.len() as u64);
+            }
+            return;
+        }
         if stage == 0 {
             let cfgs = configs(tier);
             for i in a..b {
@@ -355,6 +389,8 @@ impl Prop for C18 {
     fn case_text(&self, tier: Tier, stage: usize, i: u64) -> String {
         if stage == 0 {
             format!("config={:#06x}", configs(tier)[i as usize])
+        } else if stage == 1 {
+            format!("decoy then marker for {:?}", REGS[i as usize])
         } else {
             format!("fresh {}", i)
         }
